@@ -32,6 +32,8 @@ BUILT = {
          "That the text 'A | B' is read as the pipe of A and B is a parser statement (C03); the harness compares Search('A | B', d) with Search(B, Search(A, d)) on the real library."),
  "C17": ("Theorems: Compile returns exactly one of (expression, error) on every byte string; a syntax error's offset lies in [0, len]; the caret rendering has the stated form and strings.Repeat is never called with a negative count; MustCompile panics exactly when Compile fails.",
          "Exact offsets are compared between library and model on generated inputs; the error message text is not modelled."),
+ "C16": ("Theorems: Search on any expression text and any JSON document returns, when it succeeds, a value with no expression reference and only well-formed string-keyed objects (unconditional, any number type incl. binary64); all its numbers are finite under the property's no-overflow proviso (NoOverflow: abs, ceil, floor, length conversion, addition and division by a length preserve finiteness - satisfiable, shown for exact arithmetic); to_number and JSON literals yield finite numbers or null/error, avg of nothing is null; JSON data is always serialisable.",
+         "PARTIAL for the last clause: 'serialise and read back an equal value' is not a theorem (needs a print/parse round-trip law of float formatting); the harness does the json.Marshal/Unmarshal round trip and a nil-vs-empty type walk on the real result of every generated call. NoOverflow is a hypothesis on the number operations as a whole, so for binary64 the finiteness half is a theorem only about evaluations of a number type in which sums cannot overflow; on binary64 itself finiteness is checked by the run."),
  "C10": ("Theorems: the dispatcher of functions.go (regenerated table, resolveArgs/typeCheck, 26 handlers with unchecked assertions) equals the specification's call for every name and argument list; ill-typed / wrong arity / unknown => error; inconsistent by-keys => error at any length; evaluation never panics.",
          "The full name x arity x universe matrix is run through library, model and specification."),
 }
